@@ -175,14 +175,14 @@ func (x *ctxInfo) verdict(out clientx.Outcome, f string, p int, first string) {
 			x.r.Violate(c, "wrong-error-class", a, fmt.Sprintf("%s: want *ClientError (timeout), got %T: %v", ctx, out.Err, out.Err))
 		}
 	case "inject":
-		if !isCE || !errors.Is(out.Err, xport.ErrInjected) {
+		if !isCE || !errors.Is(out.Err, out.Conn.InjectedErr()) {
 			x.r.Violate(c, "wrong-error-class", a, fmt.Sprintf("%s: want *ClientError wrapping the injected error, got %T: %v", ctx, out.Err, out.Err))
 		}
 		if n := readsAfter(func(e xport.Event) bool { return e.Op == "read" && e.Err == "inject" }); n > 0 {
 			x.r.Violate(c, "reads-after-fatal-error", a, fmt.Sprintf("%s: %d more reads after the injected read error", ctx, n))
 		}
 	case "write":
-		if !isCE || !errors.Is(out.Err, xport.ErrInjected) {
+		if !isCE || !errors.Is(out.Err, out.Conn.InjectedErr()) {
 			x.r.Violate(c, "wrong-error-class", a, fmt.Sprintf("%s: want *ClientError wrapping the injected write error, got %T: %v", ctx, out.Err, out.Err))
 		}
 		if n := readsAfter(func(e xport.Event) bool { return e.Op == "write" }); n > 0 {
